@@ -104,11 +104,17 @@ class World:
         return self.value(_dt.datetime(year, month, day, hour, minute, second, microsecond))
 
     def _parse_ordinal(self, text):
-        mo = re.fullmatch(r"(-?\d+)-(\d{3})", text)
-        if not mo:
-            raise core.Unsupported(f"pendulum.parse({text!r}) in the formatter world")
-        d = _dt.date(int(mo.group(1)), 1, 1) + _dt.timedelta(days=int(mo.group(2)) - 1)
-        return self.value(_dt.datetime(d.year, d.month, d.day))
+        """pendulum.parse() of the 'year-number' string _check_parsed builds for a day of the year: three digits are an ordinal day (ISO 8601),
+        two digits a month, anything else is refused - what parse() does with these strings in both back ends (C07)"""
+        mo = re.fullmatch(r"(\d{1,4})-(\d+)", text)
+        if mo and len(mo.group(2)) == 3:
+            y, n = int(mo.group(1)), int(mo.group(2))
+            if 1 <= n <= (366 if (y % 4 == 0 and (y % 100 != 0 or y % 400 == 0)) else 365):
+                d = _dt.date(y, 1, 1) + _dt.timedelta(days=n - 1)
+                return self.value(_dt.datetime(d.year, d.month, d.day))
+        elif mo and len(mo.group(2)) == 2 and 1 <= int(mo.group(2)) <= 12:
+            return self.value(_dt.datetime(int(mo.group(1)), int(mo.group(2)), 1))
+        raise minieval.Raised(f"raise reached: ParserError: Unable to parse string [{text}]", "ParserError")
 
     def value(self, w: _dt.datetime) -> Obj:
         """a DateTime of the wall-clock world with the accessors the formatter reads"""
